@@ -1166,7 +1166,12 @@ func (r logsResource) Paginate(ctx context.Context, q common.PaginatedQuery[any]
 	return out, nil
 }
 
-func (s *SimStore) Logs() common.PaginatedResource[ledger.Log, any] { return logsResource{s} }
+func (s *SimStore) Logs() common.PaginatedResource[ledger.Log, any] {
+	if s.w.realSQL {
+		return realFirst[ledger.Log, any]{real: s.DefaultStoreAdapter.Logs(), model: logsResource{s}, w: s.w}
+	}
+	return logsResource{s}
+}
 
 type txResource struct{ s *SimStore }
 
@@ -1212,6 +1217,9 @@ func (r txResource) Paginate(ctx context.Context, q common.PaginatedQuery[any]) 
 }
 
 func (s *SimStore) Transactions() common.PaginatedResource[ledger.Transaction, any] {
+	if s.w.realSQL {
+		return realFirst[ledger.Transaction, any]{real: s.DefaultStoreAdapter.Transactions(), model: txResource{s}, w: s.w}
+	}
 	return txResource{s}
 }
 
@@ -1251,7 +1259,12 @@ func (r acctResource) Paginate(ctx context.Context, q common.PaginatedQuery[any]
 	return nil, r.s.w.unmodelled("simpg: account listing unsupported")
 }
 
-func (s *SimStore) Accounts() common.PaginatedResource[ledger.Account, any] { return acctResource{s} }
+func (s *SimStore) Accounts() common.PaginatedResource[ledger.Account, any] {
+	if s.w.realSQL {
+		return realFirst[ledger.Account, any]{real: s.DefaultStoreAdapter.Accounts(), model: acctResource{s}, w: s.w}
+	}
+	return acctResource{s}
+}
 
 type unsupportedAgg struct{ s *SimStore }
 
